@@ -208,15 +208,15 @@ Proof.
     assert (D' : u < q * (u / q) + q).
     { pose proof (Z.mod_pos_bound u q Q). pose proof (Z.div_mod u q ltac:(lia)). lia. }
     set (y := u / q) in *.
-    destruct (Z.ltb_spec u (128 * (q * 256))) as [C|C].
+    destruct (Z.ltb_spec u (128 * (256 * q))) as [C|C].
     + assert (y < 32768) by nia.
       assert (128 <= y).
       { destruct (Z.eqb_spec ((y / 256) mod 256 mod 128) 0); [apply Z.leb_le in M|]; lia. }
-      nia.
+      assert (q * 128 <= q * y) by (apply Z.mul_le_mono_nonneg_l; lia). lia.
     + assert (32768 <= y) by nia.
       assert (128 <= y - 32768).
       { destruct (Z.eqb_spec ((y / 256) mod 256 mod 128) 0); [apply Z.leb_le in M|]; lia. }
-      nia.
+      assert (q * 128 <= q * (y - 32768)) by (apply Z.mul_le_mono_nonneg_l; lia). lia.
 Qed.
 
 Lemma num_enc_dec_le N u : 0 <= u < 256 ^ Z.of_nat N ->
@@ -254,3 +254,225 @@ Theorem num_enc_dec_iff : forall b, num_enc (num_dec b) = b <-> num_minimal b = 
 Proof.
   intros b. split; [|apply num_enc_dec]. intros H. rewrite <- H. apply num_enc_minimal.
 Qed.
+
+(* ---------- MODEL: bit operations on a byte value (finite sweeps over the 256 bytes) ---------- *)
+Lemma byte_land80 c : (Z.land (b2z c) 0x80 =? 0) = (b2z c <? 128).
+Proof. destruct c; vm_compute; reflexivity. Qed.
+Lemma byte_clear80 c : 128 <= b2z c -> Z.land (b2z c) (Z.lnot 0x80) = b2z c - 128.
+Proof.
+  intros H.
+  assert (E : (if 128 <=? b2z c then Z.land (b2z c) (Z.lnot 0x80) =? b2z c - 128 else true) = true)
+    by (destruct c; vm_compute; reflexivity).
+  destruct (Z.leb_spec 128 (b2z c)); [now apply Z.eqb_eq in E|lia].
+Qed.
+Lemma byte_set80 c : b2z c < 128 -> Z.lor (b2z c) 0x80 = b2z c + 128.
+Proof.
+  intros H.
+  assert (E : (if b2z c <? 128 then Z.lor (b2z c) 0x80 =? b2z c + 128 else true) = true)
+    by (destruct c; vm_compute; reflexivity).
+  destruct (Z.ltb_spec (b2z c) 128); [now apply Z.eqb_eq in E|lia].
+Qed.
+
+Lemma z2b_mod x : z2b (x mod 256) = z2b x.
+Proof. unfold z2b. now rewrite Z.mod_mod by lia. Qed.
+Lemma map_z2b_b2z l : map z2b (map b2z l) = l.
+Proof. induction l as [|c l IH]; cbn [map]; [reflexivity|]. now rewrite z2b_b2z, IH. Qed.
+
+(* ---------- bn2bin / bin2bn ---------- *)
+Lemma bn2bin_loop_S k v :
+  bn2bin_loop (S k) v = (v / 256 ^ Z.of_nat k) mod 256 :: bn2bin_loop k v.
+Proof.
+  cbn [bn2bin_loop]. f_equal. rewrite land_mask8, Z.shiftr_div_pow2 by lia.
+  rewrite pow256 by lia. rewrite (Z.mul_comm (Z.of_nat k) 8). reflexivity.
+Qed.
+Lemma bn2bin_loop_bytes k v : ints_to_bytes (bn2bin_loop k v) = rev (le_enc k v).
+Proof.
+  induction k as [|k IH]; [reflexivity|].
+  rewrite bn2bin_loop_S, le_enc_snoc, rev_app_distr. unfold ints_to_bytes in *.
+  cbn [map rev app]. now rewrite IH, z2b_mod.
+Qed.
+
+Lemma lor_shl8 acc c : 0 <= acc -> 0 <= c < 256 -> Z.lor (Z.shiftl acc 8) c = acc * 256 + c.
+Proof.
+  intros A C. rewrite Z.lor_comm, lor_shiftl_add by (change (2 ^ 8) with 256; lia).
+  change (2 ^ 8) with 256. lia.
+Qed.
+Lemma bin2bn_fold l : forall acc, 0 <= acc ->
+  fold_left (fun l ch => Z.lor (Z.shiftl l 8) ch) (map b2z l) acc = acc * 256 ^ lenZ l + le_dec (rev l).
+Proof.
+  induction l as [|c l IH]; intros acc A.
+  - cbn [map fold_left rev le_dec]. unfold lenZ. cbn [length Z.of_nat]. change (256 ^ 0) with 1. lia.
+  - cbn [map fold_left rev]. pose proof (b2z_range c).
+    rewrite lor_shl8 by lia. rewrite IH by lia.
+    rewrite le_dec_app. cbn [le_dec]. unfold lenZ. rewrite rev_length. cbn [length].
+    rewrite Nat2Z.inj_succ, Z.pow_succ_r by lia. ring.
+Qed.
+
+(* have_ext: the bit length is a multiple of 8  <->  bit 7 of the top magnitude byte is set *)
+Lemma have_ext_iff a : 0 < a ->
+  ((Z.log2 a + 1) mod 8 =? 0) = (128 <=? a / 256 ^ (Z.log2 a / 8)).
+Proof.
+  intros H. pose proof (Z.log2_spec a H) as [L U]. pose proof (Z.log2_nonneg a) as N.
+  set (l := Z.log2 a) in *. rewrite pow256 by lia.
+  set (m := 8 * (l / 8)). set (r := l - m).
+  assert (Hr : 0 <= r < 8) by (subst r m; lia).
+  assert (Hm : 0 <= m) by (subst m; lia).
+  assert (P : 0 < 2 ^ m) by (apply Z.pow_pos_nonneg; lia).
+  assert (E1 : 2 ^ l = 2 ^ r * 2 ^ m) by (rewrite <- Z.pow_add_r by lia; f_equal; subst r; lia).
+  assert (E2 : 2 ^ Z.succ l = 2 ^ (r + 1) * 2 ^ m) by (rewrite <- Z.pow_add_r by lia; f_equal; subst r; lia).
+  assert (B1 : 2 ^ r <= a / 2 ^ m) by (apply div_ge_bound; lia).
+  assert (B2 : a / 2 ^ m < 2 ^ (r + 1)) by (apply div_lt_bound; lia).
+  destruct (Z.eqb_spec ((l + 1) mod 8) 0) as [C|C]; symmetry.
+  - assert (r = 7) by (subst r m; lia). apply Z.leb_le. rewrite H0 in B1. change (2 ^ 7) with 128 in B1. exact B1.
+  - assert (r + 1 <= 7) by (subst r m; lia). apply Z.leb_gt.
+    assert (2 ^ (r + 1) <= 2 ^ 7) by (apply Z.pow_le_mono_r; lia). change (2 ^ 7) with 128 in *. lia.
+Qed.
+
+(* ---------- MODEL = SPEC ---------- *)
+Lemma be_enc4_len k : length (be_enc 4 k) = 4%nat.
+Proof. unfold be_enc. now rewrite rev_length, le_enc_length. Qed.
+
+Lemma mpi2vch_app s x : length s = 4%nat -> mpi2vch (s ++ x) = rev x.
+Proof.
+  intros H. unfold mpi2vch. rewrite skipn_app, (skipn_all2 s) by lia. rewrite H. reflexivity.
+Qed.
+
+Theorem bn2vch_spec : forall v,
+  bn2vch v = if lenZ (num_enc v) <? 2^32 then Ok (num_enc v) else Err StructError.
+Proof.
+  intros v. destruct (Z.eq_dec v 0) as [->|Hv]; [vm_compute; reflexivity|].
+  set (a := Z.abs v). assert (Ha : 0 < a) by (subst a; lia).
+  pose proof (Z.log2_nonneg a) as LN.
+  assert (BLv : py_bit_length v = Z.log2 a + 1).
+  { unfold py_bit_length. destruct (Z.eqb_spec v 0); [contradiction|reflexivity]. }
+  assert (BLa : py_bit_length a = Z.log2 a + 1).
+  { unfold py_bit_length. destruct (Z.eqb_spec a 0); [lia|]. now rewrite (Z.abs_eq a) by lia. }
+  assert (AV : (if v <? 0 then - v else v) = a) by (subst a; destruct (Z.ltb_spec v 0); lia).
+  rewrite num_enc_unfold by assumption. fold a. rewrite lenZ_le_enc.
+  unfold bn2vch, bn2mpi. cbv zeta. rewrite AV, BLv. unfold bn_bytes, bn2bin, bn_bytes. rewrite BLa.
+  replace (Z.log2 a + 1 >? 0) with true by (symmetry; apply Z.gtb_lt; lia).
+  assert (LAND : Z.land (Z.log2 a + 1) 7 = (Z.log2 a + 1) mod 8).
+  { change 7 with (Z.ones 3). rewrite Z.land_ones by lia. reflexivity. }
+  rewrite LAND, (have_ext_iff a Ha).
+  replace ((Z.log2 a + 1 + 7) / 8 + 0) with (Z.log2 a / 8 + 1) by lia.
+  replace ((Z.log2 a + 1 + 7) / 8) with (Z.log2 a / 8 + 1) by lia.
+  unfold nlen.
+  pose proof (log2_bytes a Ha) as B. cbv zeta in B.
+  set (nz := Z.log2 a / 8 + 1) in *. assert (Hnz : 1 <= nz) by (subst nz; lia).
+  rewrite Z2Nat.id by lia.
+  replace (Z.log2 a / 8) with (nz - 1) by (subst nz; lia).
+  assert (P : 0 < 256 ^ (nz - 1)) by (apply pow256_pos; lia).
+  assert (E : 256 ^ nz = 256 * 256 ^ (nz - 1)) by (rewrite <- pow256_succ by lia; f_equal; lia).
+  assert (NZ : Z.of_nat (Z.to_nat nz) = nz) by (apply Z2Nat.id; lia).
+  destruct (Z.to_nat nz) as [|k] eqn:Ek; [lia|].
+  assert (Kz : nz - 1 = Z.of_nat k) by lia. rewrite Kz in *.
+  set (p := 256 ^ Z.of_nat k) in *.
+  assert (T : 1 <= a / p < 256).
+  { split; [apply (div_ge_bound a p 1)|apply div_lt_bound]; lia. }
+  destruct (Z.leb_spec 128 (a / p)) as [C|C].
+  - (* have_ext *)
+    replace (Z.of_nat (S (S k))) with (nz + 1) by lia.
+    replace (nz + 1 - 1) with (Z.of_nat (S k)) by lia.
+    unfold pack_be32. replace (0 <=? nz + 1) with true by (symmetry; apply Z.leb_le; lia).
+    destruct (nz + 1 <? 2 ^ 32); cbn [andb bind]; [|reflexivity].
+    assert (Q : 256 ^ Z.of_nat (S k) = 256 * p) by (rewrite pow256_S; reflexivity).
+    rewrite le_enc_snoc, Q.
+    destruct (Z.ltb_spec v 0); cbn [bind or_first fst snd]; rewrite mpi2vch_app by apply be_enc4_len;
+      rewrite rev_app_distr, bn2bin_loop_bytes, rev_involutive; do 2 f_equal.
+    + rewrite <- (le_enc_mod (S k) (a + _)), Q, Z_mod_plus_full, Z.mod_small by lia. reflexivity.
+    + cbn [ints_to_bytes map rev app]. do 2 f_equal. rewrite Z.div_add, Z.div_small by lia. reflexivity.
+    + cbn [ints_to_bytes map rev app]. do 2 f_equal. rewrite Z.div_small by lia. reflexivity.
+  - (* no extension byte *)
+    replace (nz + 0) with nz by lia. rewrite NZ, Kz. fold p.
+    unfold pack_be32. replace (0 <=? nz) with true by (symmetry; apply Z.leb_le; lia).
+    destruct (nz <? 2 ^ 32); cbn [andb bind]; [|reflexivity].
+    rewrite le_enc_snoc. fold p.
+    destruct (Z.ltb_spec v 0).
+    + rewrite bn2bin_loop_S. fold p. cbn [bind or_first fst snd].
+      rewrite mpi2vch_app by apply be_enc4_len. cbn [ints_to_bytes map app].
+      fold (ints_to_bytes (bn2bin_loop k a)). cbn [rev]. rewrite bn2bin_loop_bytes, rev_involutive.
+      do 2 f_equal.
+      * rewrite <- (le_enc_mod k (a + _)). fold p. rewrite Z_mod_plus_full, le_enc_mod. reflexivity.
+      * do 2 f_equal. rewrite Z.mod_small by lia.
+        assert (BZ : b2z (z2b (a / p)) = a / p) by (rewrite b2z_z2b; apply Z.mod_small; lia).
+        rewrite <- BZ at 1. rewrite byte_set80 by lia. rewrite BZ, Z.div_add by lia. reflexivity.
+    + cbn [bind fst snd]. rewrite mpi2vch_app by apply be_enc4_len.
+      cbn [ints_to_bytes map app]. fold (ints_to_bytes (bn2bin_loop (S k) a)).
+      rewrite bn2bin_loop_bytes, rev_involutive, le_enc_snoc. reflexivity.
+Qed.
+
+Lemma py_slice_head s x : length s = 4%nat -> py_slice (s ++ x) 0 4 = s.
+Proof.
+  intros H. unfold py_slice. cbv zeta. rewrite lenZ_app. unfold lenZ at 1 2. rewrite H.
+  pose proof (Nat2Z.is_nonneg (length x)). unfold lenZ.
+  rewrite (Z.min_l 0) by lia. rewrite (Z.min_l 4) by lia.
+  change (Z.to_nat (4 - 0)) with 4%nat. change (Z.to_nat 0) with 0%nat. cbn [skipn].
+  rewrite firstn_app, H, Nat.sub_diag, firstn_O, app_nil_r.
+  apply firstn_all2. lia.
+Qed.
+
+Lemma be_dec_enc4 n : 0 <= n < 2 ^ 32 -> be_dec (be_enc 4 n) = n.
+Proof.
+  intros H. unfold be_dec, be_enc. rewrite rev_involutive. apply le_dec_enc.
+  change (256 ^ Z.of_nat 4) with (2 ^ 32). exact H.
+Qed.
+
+Theorem vch2bn_spec : forall b,
+  vch2bn b = if lenZ b <? 2^32 then Ok (num_dec b) else Err StructError.
+Proof.
+  intros b. unfold vch2bn, vch2mpi, pack_be32.
+  pose proof (Nat2Z.is_nonneg (length b)) as LB. fold (lenZ b) in LB.
+  replace (0 <=? lenZ b) with true by (symmetry; apply Z.leb_le; lia).
+  destruct (Z.ltb_spec (lenZ b) (2 ^ 32)) as [C|C]; cbn [andb bind]; [|reflexivity].
+  unfold mpi2bn.
+  rewrite py_slice_head by apply be_enc4_len. rewrite be_dec_enc4 by lia.
+  assert (LM : lenZ (be_enc 4 (lenZ b) ++ rev b) = lenZ b + 4).
+  { unfold lenZ. rewrite app_length, be_enc4_len, rev_length. lia. }
+  assert (SK : skipn 4 (be_enc 4 (lenZ b) ++ rev b) = rev b).
+  { rewrite skipn_app, skipn_all2 by (rewrite be_enc4_len; lia). rewrite be_enc4_len. reflexivity. }
+  rewrite LM, SK.
+  replace (lenZ b + 4 <? 4) with false by (symmetry; apply Z.ltb_ge; lia).
+  rewrite Z.eqb_refl. cbn [negb].
+  destruct b as [|c0 b0] using rev_ind; [reflexivity|]. clear IHb0.
+  rewrite rev_app_distr. cbn [rev app bytes_to_ints map].
+  replace (lenZ (b0 ++ [c0]) =? 0) with false
+    by (symmetry; apply Z.eqb_neq; rewrite lenZ_app; unfold lenZ; cbn [length]; lia).
+  cbn [bind].
+  rewrite byte_land80.
+  rewrite num_dec_unfold by (rewrite app_length; cbn [length]; lia).
+  rewrite le_dec_app, lenZ_app. cbn [le_dec]. change (lenZ [c0]) with 1.
+  replace (lenZ b0 + 1 - 1) with (lenZ b0) by lia.
+  pose proof (b2z_range c0) as RC. pose proof (le_dec_range b0) as RB. fold (lenZ b0) in RB.
+  assert (P : 0 < 256 ^ lenZ b0) by (apply pow256_pos; unfold lenZ; lia).
+  set (p := 256 ^ lenZ b0) in *. unfold bin2bn. cbn [fold_left].
+  assert (LR : lenZ (rev b0) = lenZ b0) by (unfold lenZ; now rewrite rev_length).
+  f_equal. destruct (Z.ltb_spec (b2z c0) 128) as [S|S]; cbn [negb fold_left];
+    change (Z.shiftl 0 8) with 0; rewrite Z.lor_0_l.
+  - rewrite bin2bn_fold by lia. rewrite LR, rev_involutive. fold p.
+    assert (p * b2z c0 <= p * 127) by (apply Z.mul_le_mono_nonneg_l; lia).
+    destruct (Z.ltb_spec (le_dec b0 + p * (b2z c0 + 256 * 0)) (128 * p)); lia.
+  - rewrite byte_clear80 by lia. rewrite bin2bn_fold by lia. rewrite LR, rev_involutive. fold p.
+    assert (p * 128 <= p * b2z c0) by (apply Z.mul_le_mono_nonneg_l; lia).
+    destruct (Z.ltb_spec (le_dec b0 + p * (b2z c0 + 256 * 0)) (128 * p)); lia.
+Qed.
+
+(* ---------- MODEL-level round trips ---------- *)
+Theorem vch2bn_bn2vch : forall v b, bn2vch v = Ok b -> vch2bn b = Ok v.
+Proof.
+  intros v b H. rewrite bn2vch_spec in H.
+  destruct (lenZ (num_enc v) <? 2 ^ 32) eqn:E; [|discriminate].
+  injection H as <-. rewrite vch2bn_spec, E, num_dec_enc. reflexivity.
+Qed.
+
+Theorem bn2vch_vch2bn : forall b v, vch2bn b = Ok v -> (bn2vch v = Ok b <-> num_minimal b = true).
+Proof.
+  intros b v H. rewrite vch2bn_spec in H.
+  destruct (lenZ b <? 2 ^ 32) eqn:E; [|discriminate].
+  injection H as <-. rewrite bn2vch_spec, <- num_enc_dec_iff. split.
+  - destruct (lenZ (num_enc (num_dec b)) <? 2 ^ 32); [|discriminate]. intros H. now injection H.
+  - intros ->. rewrite E. reflexivity.
+Qed.
+
+(* mpi2bn's None (a TypeError in every caller) is never reached from vch2bn *)
+Corollary vch2bn_no_typeerror : forall b, vch2bn b <> Err TypeError.
+Proof. intros b. rewrite vch2bn_spec. destruct (lenZ b <? 2 ^ 32); discriminate. Qed.
